@@ -1,14 +1,526 @@
-"""Engine V: Verus on functions extracted mechanically from /repo/src on every run (see DESIGN.md section 2.2)."""
+"""Engine V: Verus on functions extracted mechanically from /repo/src on every run (DESIGN.md section 2.2).
+
+A unit (verus/units/<name>.py) lists the functions to cut out of one or more source files, the contract clauses to
+splice in (keyed by function name and loop ordinal) and the syntactic rewrites (closed list R1..R10) to apply.
+The generated file is  preamble + extracted items + auto-generated vacuity probes + epilogue, written to
+evidence/generated/<unit>.rs so that it can be diffed against the source.
+"""
 from __future__ import annotations
+
+import importlib.util
+import re
+import time
 from dataclasses import dataclass, field
+from pathlib import Path
+
+from . import core
+from .core import VERIF, LostAnchor, Obligation, log
+
+import os
+GEN_DIR = Path(os.environ.get("VERIF_OUT", str(VERIF))) / "evidence" / "generated"
+
+
+# ----------------------------------------------------------------------------------------------------
+# a small Rust-token-aware scanner (strings, raw strings, chars vs lifetimes, comments)
+# ----------------------------------------------------------------------------------------------------
+def tokenize(src: str):
+    """Yield (kind, text, start, end); kind in {ws, comment, str, char, ident, num, punct, lifetime}."""
+    i, n = 0, len(src)
+    while i < n:
+        c = src[i]
+        if c.isspace():
+            j = i
+            while j < n and src[j].isspace():
+                j += 1
+            yield ("ws", src[i:j], i, j)
+            i = j
+        elif src.startswith("//", i):
+            j = src.find("\n", i)
+            j = n if j < 0 else j
+            yield ("comment", src[i:j], i, j)
+            i = j
+        elif src.startswith("/*", i):
+            depth, j = 1, i + 2
+            while j < n and depth:
+                if src.startswith("/*", j):
+                    depth += 1
+                    j += 2
+                elif src.startswith("*/", j):
+                    depth -= 1
+                    j += 2
+                else:
+                    j += 1
+            yield ("comment", src[i:j], i, j)
+            i = j
+        elif c == '"' or (c in "br" and re.match(r'(b?r#*"|b")', src[i:i + 8])):
+            m = re.match(r'b?r(#*)"', src[i:])
+            if m:
+                close = '"' + m.group(1)
+                j = src.find(close, i + len(m.group(0)))
+                j = n if j < 0 else j + len(close)
+            else:
+                j = i + (2 if c == "b" else 1)
+                while j < n and src[j] != '"':
+                    j += 2 if src[j] == "\\" else 1
+                j += 1
+            yield ("str", src[i:j], i, j)
+            i = j
+        elif c == "'" or (c == "b" and src.startswith("b'", i)):
+            k = i + (2 if c == "b" else 1)
+            # char literal: 'x' or '\..'; lifetime: 'ident not followed by '
+            m = re.match(r"(\\(?:x[0-9a-fA-F]{2}|u\{[0-9a-fA-F_]+\}|.)|[^\\'])'", src[k:])
+            if m:
+                j = k + len(m.group(0))
+                yield ("char", src[i:j], i, j)
+            else:
+                m2 = re.match(r"[A-Za-z_][A-Za-z0-9_]*", src[k:])
+                j = k + (len(m2.group(0)) if m2 else 0)
+                yield ("lifetime", src[i:j], i, j)
+            i = j
+        elif c.isalpha() or c == "_":
+            j = i
+            while j < n and (src[j].isalnum() or src[j] == "_"):
+                j += 1
+            yield ("ident", src[i:j], i, j)
+            i = j
+        elif c.isdigit():
+            j = i
+            while j < n and (src[j].isalnum() or src[j] in "._"):
+                if src[j] == "." and (j + 1 >= n or not src[j + 1].isdigit()):
+                    break
+                j += 1
+            yield ("num", src[i:j], i, j)
+            i = j
+        else:
+            yield ("punct", c, i, i + 1)
+            i += 1
+
+
+def _sig_tokens(src: str):
+    return [t for t in tokenize(src) if t[0] not in ("ws", "comment")]
+
+
+def find_fn(src: str, name: str, impl: str | None = None) -> tuple[int, int, int]:
+    """Return (start_of_fn_keyword_with_qualifiers, index_of_body_open_brace, index_after_body_close_brace)."""
+    toks = _sig_tokens(src)
+    lo, hi = 0, len(src)
+    if impl:
+        # locate `impl ... <impl> ... {` block (first whose header contains the identifier `impl` name and no ` for ` trait unless given as "Trait for Type")
+        want = impl.split()
+        for idx, t in enumerate(toks):
+            if t[0] == "ident" and t[1] == "impl":
+                # header until '{'
+                j = idx
+                hdr = []
+                while j < len(toks) and not (toks[j][0] == "punct" and toks[j][1] == "{"):
+                    hdr.append(toks[j][1])
+                    j += 1
+                hdr_idents = [h for h in hdr if re.match(r"[A-Za-z_]", h)]
+                has_for = "for" in hdr_idents
+                if ("for" in want) == has_for and all(w in hdr_idents for w in want):
+                    # match braces
+                    depth, k = 0, j
+                    while k < len(toks):
+                        if toks[k][0] == "punct" and toks[k][1] == "{":
+                            depth += 1
+                        elif toks[k][0] == "punct" and toks[k][1] == "}":
+                            depth -= 1
+                            if depth == 0:
+                                break
+                        k += 1
+                    lo, hi = toks[j][2], toks[k][3]
+                    # is the fn inside this block?
+                    if re.search(r"\bfn\s+" + re.escape(name) + r"\b", src[lo:hi]):
+                        break
+                    lo, hi = 0, len(src)
+        else:
+            raise LostAnchor(f"impl block '{impl}' containing fn {name} not found")
+    for idx, t in enumerate(toks):
+        if t[2] < lo or t[3] > hi:
+            continue
+        if t[0] == "ident" and t[1] == "fn" and idx + 1 < len(toks) and toks[idx + 1][1] == name:
+            # qualifiers before fn
+            s = idx
+            while s > 0 and toks[s - 1][0] == "ident" and toks[s - 1][1] in ("pub", "const", "unsafe", "async", "extern"):
+                s -= 1
+            # pub(crate)
+            if s > 0 and toks[s - 1][1] == ")" and s >= 4 and toks[s - 4][1] == "pub":
+                s -= 4
+            # body open brace: first '{' at paren/bracket/angle depth 0 after the parameter list
+            depth, k = 0, idx
+            while k < len(toks):
+                tx = toks[k][1] if toks[k][0] == "punct" else None
+                if tx in ("(", "["):
+                    depth += 1
+                elif tx in (")", "]"):
+                    depth -= 1
+                elif tx == "{" and depth == 0:
+                    break
+                elif tx == ";" and depth == 0:
+                    raise LostAnchor(f"fn {name} has no body")
+                k += 1
+            open_i = toks[k][2]
+            d, m = 0, k
+            while m < len(toks):
+                tx = toks[m][1] if toks[m][0] == "punct" else None
+                if tx == "{":
+                    d += 1
+                elif tx == "}":
+                    d -= 1
+                    if d == 0:
+                        break
+                m += 1
+            return toks[s][2], open_i, toks[m][3]
+    raise LostAnchor(f"fn {name} not found" + (f" in impl {impl}" if impl else ""))
+
+
+def loop_sites(body: str) -> list[tuple[int, int]]:
+    """Positions (keyword_start, body_open_brace) of while/loop/for statements in order of appearance."""
+    toks = _sig_tokens(body)
+    out = []
+    for idx, t in enumerate(toks):
+        if t[0] == "ident" and t[1] in ("while", "loop", "for"):
+            if t[1] == "for" and idx > 0 and toks[idx - 1][1] in ("<", "impl"):  # `for<'a>` / `impl X for Y`
+                continue
+            depth, k = 0, idx + 1
+            while k < len(toks):
+                tx = toks[k][1] if toks[k][0] == "punct" else None
+                if tx in ("(", "["):
+                    depth += 1
+                elif tx in (")", "]"):
+                    depth -= 1
+                elif tx == "{" and depth == 0:
+                    out.append((t[2], toks[k][2]))
+                    break
+                k += 1
+    return out
+
+
+# ----------------------------------------------------------------------------------------------------
+# unit description
+# ----------------------------------------------------------------------------------------------------
+@dataclass
+class Rw:
+    """One application of a rewrite rule from the closed list (DESIGN.md section 2.2)."""
+    rule: str            # R1..R10
+    pattern: str         # regex
+    repl: str
+    count: int = 0       # 0 = all
+    min_matches: int = 1  # fewer matches => lost anchor (undecided)
+    flags: int = re.S
+
+
+@dataclass
+class Fn:
+    name: str
+    source: str | None = None        # overrides unit source
+    impl: str | None = None
+    sig: str | None = None           # replacement signature (R4/R2: retyped params, &self -> &mut self, named return)
+    expect_sig: str | None = None    # regex the ORIGINAL signature must match (guards the override)
+    requires: list = field(default_factory=list)
+    ensures: list = field(default_factory=list)
+    loops: dict = field(default_factory=dict)     # ordinal(1-based) -> {"invariant": [...], "decreases": "..."}
+    rewrites: list = field(default_factory=list)
+    inserts: list = field(default_factory=list)   # (regex, ordinal, text) : insert text before the k-th line matching regex
+    vacuity: str | None = None       # parameter list for the auto-generated vacuity probe ("" = no probe)
+    vacuity_subst: list = field(default_factory=list)  # [(from, to)] textual substitutions applied to requires
+    real_name: str | None = None     # name reported in evidence (e.g. "Lexer::scan_number")
+    attrs: str = ""
+    decreases: str | None = None     # fn-level decreases (recursion)
+
+
+@dataclass
+class Const:
+    name: str
+    source: str | None = None
+
+
+@dataclass
+class Raw:
+    text: str
+
 
 @dataclass
 class VUnit:
     name: str
     props: list
+    source: str
+    preamble: str
+    items: list
+    epilogue: str = ""
+    rewrites_doc: list = field(default_factory=list)
+    trusted: list = field(default_factory=list)
+    rlimit: int | None = None
+    timeout: int = 300
     assumptions_found: list = field(default_factory=list)
+    global_rewrites: list = field(default_factory=list)
+    lemma_obligations: list = field(default_factory=list)   # names of proof fns in preamble/epilogue reported as obligations
 
-VUNITS: dict = {}
 
-def run_vunit(u, scratch, tier):
-    raise NotImplementedError
+R1_PATTERNS = [
+    (r"#\[(?:inline(?:\([a-z]+\))?|cold|must_use|allow\([^\]]*\))\]\s*", ""),
+]
+
+
+def strip_r1(text: str) -> str:
+    for p, r in R1_PATTERNS:
+        text = re.sub(p, r, text)
+    # doc comments and ordinary comments are dropped token-aware
+    out = []
+    for k, t, s, e in tokenize(text):
+        if k == "comment":
+            continue
+        out.append(t)
+    return "".join(out)
+
+
+def extract_fn(repo: Path, unit: VUnit, f: Fn) -> tuple[str, dict]:
+    path = repo / (f.source or unit.source)
+    if not path.exists():
+        raise LostAnchor(f"{path} missing")
+    src = path.read_text()
+    start, open_i, end = find_fn(src, f.name, f.impl)
+    sig_text = src[start:open_i]
+    body = src[open_i:end]
+    if f.expect_sig and not re.search(f.expect_sig, re.sub(r"\s+", " ", sig_text)):
+        raise LostAnchor(f"fn {f.name}: signature changed: {' '.join(sig_text.split())!r} does not match {f.expect_sig!r}")
+    info = {"file": str(f.source or unit.source), "orig_lines": (src.count("\n", 0, start) + 1, src.count("\n", 0, end) + 1),
+            "rewrites": []}
+    # ---- loops first (ordinals refer to the ORIGINAL text)
+    sites = loop_sites(body)
+    edits = []
+    for ordinal, spec in f.loops.items():
+        if ordinal < 1 or ordinal > len(sites):
+            raise LostAnchor(f"fn {f.name}: loop #{ordinal} not found (function has {len(sites)} loops)")
+        kw, brace = sites[ordinal - 1]
+        parts = []
+        if spec.get("invariant"):
+            parts.append("invariant " + ", ".join(spec["invariant"]) + ",")
+        if spec.get("ensures"):
+            parts.append("ensures " + ", ".join(spec["ensures"]) + ",")
+        if spec.get("decreases"):
+            parts.append("decreases " + spec["decreases"] + ",")
+        edits.append((brace, "\n/*@loop%d*/ %s\n" % (ordinal, " ".join(parts))))
+    if len(sites) != f.__dict__.get("_expected_loops", len(sites)):
+        pass
+    for pos, text in sorted(edits, reverse=True):
+        body = body[:pos] + text + body[pos:]
+    body = strip_r1(body)
+    # ---- rewrites
+    for rw in list(unit.global_rewrites) + list(f.rewrites):
+        new, n = re.subn(rw.pattern, rw.repl, body, count=rw.count, flags=rw.flags)
+        if n < rw.min_matches:
+            raise LostAnchor(f"fn {f.name}: rewrite {rw.rule} /{rw.pattern}/ matched {n} time(s), expected >= {rw.min_matches}")
+        if n:
+            info["rewrites"].append(f"{rw.rule}: /{rw.pattern}/ -> '{rw.repl}' x{n}")
+        body = new
+    # ---- inserts
+    for regex, ordinal, text in f.inserts:
+        lines = body.split("\n")
+        hits = [i for i, l in enumerate(lines) if re.search(regex, l)]
+        if len(hits) < ordinal:
+            raise LostAnchor(f"fn {f.name}: insert anchor /{regex}/ #{ordinal} not found")
+        lines.insert(hits[ordinal - 1], text)
+        body = "\n".join(lines)
+    # ---- signature
+    if f.sig:
+        sig = f.sig
+    else:
+        sig = strip_r1(sig_text)
+        sig = re.sub(r"^\s*pub(\([a-z]+\))?\s+", "", sig.strip())
+        sig = re.sub(r"->\s*(.+?)\s*$", r"-> (ret: \1)", sig.strip(), flags=re.S)
+    clauses = ""
+    if f.requires:
+        clauses += "\n    requires\n        " + ",\n        ".join(f.requires) + ","
+    if f.ensures:
+        clauses += "\n    ensures\n        " + ",\n        ".join(f.ensures) + ","
+    if f.decreases:
+        clauses += "\n    decreases " + f.decreases + ","
+    text = f"{f.attrs}{sig}{clauses}\n{body}\n"
+    return text, info
+
+
+def extract_const(repo: Path, unit: VUnit, c: Const) -> str:
+    src = (repo / (c.source or unit.source)).read_text()
+    m = re.search(r"^\s*(?:pub(?:\([a-z]+\))?\s+)?const\s+" + re.escape(c.name) + r"\s*:[^;]*;", src, re.M)
+    if not m:
+        raise LostAnchor(f"const {c.name} not found")
+    return re.sub(r"^\s*pub(\([a-z]+\))?\s+", "", m.group(0).strip()) + "\n"
+
+
+def generate(repo: Path, unit: VUnit) -> tuple[str, list, dict]:
+    """Returns (text, line_map[(first_line,last_line,label)], info)."""
+    parts = [("preamble", unit.preamble.strip("\n") + "\n")]
+    info = {"functions": {}, "vacuity": []}
+    for it in unit.items:
+        if isinstance(it, Raw):
+            parts.append(("raw", it.text.strip("\n") + "\n"))
+        elif isinstance(it, Const):
+            parts.append((f"const {it.name}", extract_const(repo, unit, it)))
+        else:
+            text, finfo = extract_fn(repo, unit, it)
+            info["functions"][it.name] = finfo
+            parts.append((f"fn {it.name}", text))
+            if it.vacuity is not None and it.requires and it.vacuity != "-":
+                req = it.requires
+                for a, b in it.vacuity_subst:
+                    req = [r.replace(a, b) for r in req]
+                probe = (f"proof fn vacuity_{it.name}({it.vacuity})\n    requires\n        " + ",\n        ".join(req)
+                         + ",\n    ensures false,\n{\n}\n")
+                parts.append((f"fn vacuity_{it.name}", probe))
+                info["vacuity"].append(f"vacuity_{it.name}")
+    parts.append(("epilogue", unit.epilogue.strip("\n") + "\n"))
+    out, line_map, line = [], [], 1
+    out.append("// GENERATED by /verif/vlib/vextract.py from /repo/src on this run -- do not edit.\n")
+    line += 1
+    out.append("use vstd::prelude::*;\nverus! {\n")
+    line += 2
+    for label, text in parts:
+        if not text.endswith("\n"):
+            text += "\n"
+        n = text.count("\n")
+        line_map.append((line, line + n - 1, label))
+        out.append(text)
+        line += n
+    out.append("} // verus!\nfn main() {}\n")
+    return "".join(out), line_map, info
+
+
+ERR_RE = re.compile(r"^(error|warning)(\[[A-Z0-9]+\])?: (.*)$")
+LOC_RE = re.compile(r"^\s*--> (\S+?):(\d+):(\d+)")
+SNIP_RE = re.compile(r"^\s*(\d+)\s*\|\s?(.*)$")
+
+
+def parse_verus_errors(stderr: str) -> list[dict]:
+    errs, cur = [], None
+    for line in stderr.splitlines():
+        m = ERR_RE.match(line)
+        if m:
+            if m.group(1) == "error":
+                cur = {"msg": m.group(3), "locs": [], "snips": [], "raw": [line]}
+                errs.append(cur)
+            else:
+                cur = None
+            continue
+        if cur is None:
+            continue
+        cur["raw"].append(line)
+        m = LOC_RE.match(line)
+        if m:
+            cur["locs"].append(int(m.group(2)))
+        m = SNIP_RE.match(line)
+        if m:
+            cur["snips"].append((int(m.group(1)), m.group(2).strip()))
+    return [e for e in errs if not e["msg"].startswith("aborting due to")]
+
+
+def label_of(line_map, line: int) -> str:
+    for a, b, lab in line_map:
+        if a <= line <= b:
+            return lab
+    return "?"
+
+
+def load_units() -> dict:
+    units = {}
+    d = VERIF / "verus" / "units"
+    if not d.is_dir():
+        return units
+    for p in sorted(d.glob("*.py")):
+        spec = importlib.util.spec_from_file_location(f"vunit_{p.stem}", p)
+        mod = importlib.util.module_from_spec(spec)
+        spec.loader.exec_module(mod)
+        u = mod.UNIT
+        units[u.name] = u
+    return units
+
+
+VUNITS = load_units()
+
+
+def run_vunit(u: VUnit, scratch, tier: str):
+    """Extract from the scratch copy of /repo (identical to the working tree), verify, classify."""
+    repo = scratch.repo
+    text, line_map, info = generate(repo, u)        # LostAnchor propagates -> undecided
+    GEN_DIR.mkdir(parents=True, exist_ok=True)
+    gen_path = scratch.dir / f"{u.name}.rs"
+    gen_path.write_text(text)
+    (GEN_DIR / f"{u.name}.rs").write_text(text)
+    u.assumptions_found = core.scan_assumptions(text)
+    js, stderr, wall = core.run_verus(gen_path, timeout=u.timeout, rlimit=u.rlimit)
+    vr = js.get("verification-results", {})
+    smt_ms = js.get("times-ms", {}).get("smt", {}).get("smt-run", 0)
+    errs = parse_verus_errors(stderr)
+    obs = []
+    # group errors by function label
+    by_label = {}
+    hard_errors = []
+    for e in errs:
+        lab = label_of(line_map, e["locs"][0]) if e["locs"] else "?"
+        # the most specific clause text: the last snippet line (Verus prints the failed clause second)
+        clause = ""
+        if e["snips"]:
+            clause = e["snips"][-1][1]
+        kind = e["msg"]
+        if re.search(r"postcondition|precondition|invariant|decreases|assertion|overflow|underflow|bounds|recommend|termination|panic|unreachable", kind):
+            by_label.setdefault(lab, []).append((kind, clause, "\n".join(e["raw"][:25])))
+        else:
+            hard_errors.append((lab, kind, "\n".join(e["raw"][:25])))
+    fn_items = [it for it in u.items if isinstance(it, Fn)]
+    tool_problem = None
+    if js.get("timeout"):
+        tool_problem = f"verus timed out after {u.timeout}s"
+    elif hard_errors:
+        tool_problem = "verus rejected the generated text (unsupported construct / type error):\n" + "\n".join(h[2] for h in hard_errors[:4])
+    elif not vr:
+        tool_problem = "no verification result from verus:\n" + stderr[-1500:]
+    nfun = max(1, len(fn_items) + len(u.lemma_obligations))
+    for it in fn_items:
+        lab = f"fn {it.name}"
+        ob = Obligation(name=f"V:{u.name}:{it.name}", engine="verus 0.2026.09.13 / z3", function=it.real_name or f"{(it.source or u.source)}::{it.name}",
+                        kind="proof", status="undecided", unit=u.name, time_s=round(smt_ms / 1000.0 / nfun, 3),
+                        bound="unbounded (all inputs satisfying the requires clause, all iterations)",
+                        clauses=[f"requires {r}" for r in it.requires] + [f"ensures {e}" for e in it.ensures]
+                        + [f"loop {k}: invariant {'; '.join(v.get('invariant', []))}; decreases {v.get('decreases')}" for k, v in it.loops.items()])
+        ob.checks = len(it.requires) + len(it.ensures) + sum(len(v.get("invariant", [])) + 1 for v in it.loops.values()) + 1
+        if tool_problem:
+            # a recursion without decreases is a *failed obligation* (bounded-stack contract), reported below; everything else undecided
+            ob.detail = tool_problem
+        elif lab in by_label:
+            ob.status = "failed"
+            ob.failed_clauses = [f"{k}: {c}" if c else k for k, c, _ in by_label[lab]]
+            ob.detail = "\n\n".join(r for _, _, r in by_label[lab])[:4000]
+        else:
+            ob.status = "discharged"
+        obs.append(ob)
+    # lemmas (proof fns written in the unit) as obligations
+    for name in u.lemma_obligations:
+        lab_hits = [(k, c, r) for lab, lst in by_label.items() for (k, c, r) in lst if name in r]
+        ob = Obligation(name=f"V:{u.name}:lemma:{name}", engine="verus 0.2026.09.13 / z3", function=f"(lemma over the contracts) {name}",
+                        kind="proof", status="undecided", unit=u.name, bound="unbounded", checks=1)
+        if tool_problem:
+            ob.detail = tool_problem
+        elif lab_hits:
+            ob.status, ob.failed_clauses, ob.detail = "failed", [f"{k}: {c}" for k, c, _ in lab_hits], lab_hits[0][2]
+        else:
+            ob.status = "discharged"
+        obs.append(ob)
+    # errors in raw/preamble/epilogue parts that are not attributed: make them visible
+    stray = [lab for lab in by_label if not lab.startswith("fn ") or (lab[3:] not in [i.name for i in fn_items] and not lab[3:].startswith("vacuity_"))]
+    if stray and not tool_problem:
+        unattributed = [x for lab in stray for x in by_label[lab] if not any(n in x[2] for n in u.lemma_obligations)]
+        if unattributed:
+            ob = Obligation(name=f"V:{u.name}:spec-text", engine="verus 0.2026.09.13 / z3", function="(unit preamble/epilogue)", kind="proof",
+                            status="undecided", unit=u.name, detail="error inside hand-written spec text:\n" + unattributed[0][2])
+            obs.append(ob)
+    # vacuity probes must FAIL
+    if not tool_problem:
+        for v in info["vacuity"]:
+            if f"fn {v}" not in by_label:
+                ob = Obligation(name=f"V:{u.name}:{v}", engine="verus 0.2026.09.13 / z3", function=v, kind="proof", status="undecided",
+                                unit=u.name, detail=f"vacuity guard: `{v}` (requires ... ensures false) was ACCEPTED: the precondition is contradictory")
+                obs.append(ob)
+    u._last_info = {"verified_fns": vr.get("verified"), "errors": vr.get("errors"), "smt_ms": smt_ms, "wall": wall,
+                    "rewrites": {k: v["rewrites"] for k, v in info["functions"].items()},
+                    "source_lines": {k: v["orig_lines"] for k, v in info["functions"].items()}}
+    return obs, stderr[-6000:]
